@@ -207,10 +207,10 @@ def dsnLoop (b : Bitmap) (c : Nat) (requiredM pcm : Int) : Nat → Int → E Int
       if i ≤ requiredM then dsnLoop b c requiredM pcm fuel (i + pcm) else pure (i - pcm)
     else pure (i - pcm)
 
-/-- `determine_slot_numbers` -/
+/-- `determine_slot_numbers` (a centre outside the map offers no slot: 0, repair 70910493) -/
 def determineSlotNumbers (b : Bitmap) (n requiredM pcm : Int) : E Int :=
   match b.geti n with
-  | none => throw "ValueError"
+  | none => pure 0
   | some c => dsnLoop b c requiredM pcm (b.cells.length + 2) pcm
 
 /-- one `{'N':…, 'M':…}` of effective_freq_slot -/
@@ -259,10 +259,12 @@ def selectOne (t : Bitmap) (e : Entry) (remaining pcm : Int) (pol : Policy) : E 
   | none, some n => do
     let m ← determineSlotNumbers t n remaining pcm
     if m = 0 ∨ remaining = 0 then pure none else pure (some (n, m))
-  | none, none => do
+  | none, none =>
+    -- the demand is already served by the previous slots: the entry is left unused (repair 740f9477)
+    if remaining ≤ 0 then pure none else do
     match ← spectrumSelection t remaining pol with
     | none => pure none
-    | some n => if remaining = 0 then pure none else pure (some (n, remaining))
+    | some n => pure (some (n, remaining))
 
 /-- the loop of `compute_n_m` on the test bitmap: selected (N, M) in processing order, remaining slots -/
 def nmLoop (pcm : Int) (pol : Policy) : Bitmap → Int → List Entry → E (List (Int × Int) × Int)
